@@ -188,10 +188,33 @@ class Unsupported(Exception):
     pass
 
 
-def exec1(ins, s):
-    """execute one decoded instruction in place (twin of RV32Exec.exec)"""
+def expand16(d):
+    """decoded compressed instruction (mnemonic, operands of RVCDecode.decode16) -> base instruction it expands to
+    (twin of Spec/RVCExec.expand16); None for c.ebreak / unknown"""
+    mn, a = d
+    one = {'c.jal': lambda x: ('jal', [1, x]), 'c.j': lambda x: ('jal', [0, x]), 'c.addi16sp': lambda x: ('addi', [2, 2, x]),
+           'c.jr': lambda x: ('jalr', [0, x, 0]), 'c.jalr': lambda x: ('jalr', [1, x, 0])}
+    two = {'c.addi4spn': lambda x, y: ('addi', [x, 2, y]), 'c.li': lambda x, y: ('addi', [x, 0, y]),
+           'c.lui': lambda x, y: ('lui', [x, sext(6, y) % (1 << 20)]),
+           'c.sub': lambda x, y: ('sub', [x, x, y]), 'c.xor': lambda x, y: ('xor', [x, x, y]),
+           'c.or': lambda x, y: ('or', [x, x, y]), 'c.and': lambda x, y: ('and', [x, x, y]),
+           'c.beqz': lambda x, y: ('beq', [x, 0, y]), 'c.bnez': lambda x, y: ('bne', [x, 0, y]),
+           'c.lwsp': lambda x, y: ('lw', [x, y, 2]), 'c.swsp': lambda x, y: ('sw', [x, y, 2]),
+           'c.mv': lambda x, y: ('add', [x, 0, y]), 'c.add': lambda x, y: ('add', [x, x, y])}
+    three = {'c.lw': 'lw', 'c.sw': 'sw', 'c.addi': 'addi', 'c.srli': 'srli', 'c.srai': 'srai', 'c.andi': 'andi', 'c.slli': 'slli'}
+    if len(a) == 1 and mn in one:
+        return one[mn](a[0])
+    if len(a) == 2 and mn in two:
+        return two[mn](a[0], a[1])
+    if len(a) == 3 and mn in three:
+        return (three[mn], list(a))
+    return None
+
+
+def exec1(ins, s, ilen=4):
+    """execute one decoded instruction in place (twin of RV32Exec.exec; ilen = 2: RVCExec.exec_len2)"""
     mn, a = ins
-    nxt = s.pc + 4
+    nxt = s.pc + ilen
     if mn == 'lui':
         s.set(a[0], a[1] * 4096)
         s.pc = u32(nxt)
